@@ -186,6 +186,9 @@ func cmdVC(args []string) {
 		fmt.Println("  uses:", strings.Join(used, ", "))
 	}
 	if bad > 0 {
+		if *dump == "" {
+			os.RemoveAll(dir)
+		}
 		os.Exit(1)
 	}
 }
